@@ -36,6 +36,7 @@ type Prog struct {
 	idx *Index // E1, built lazily
 
 	implCache map[string][]*ssa.Function
+	nilFns    map[*ssa.Function]bool // functions whose error result is always nil
 }
 
 type loadOpts struct {
